@@ -69,6 +69,33 @@ def run(ctx):
                 res.violations.append({"kind": "inclusion proof does not contain the entry", "n": n, "i": i,
                                        "list": [x.hex() for x in l]})
         res.count("lengths")
+    # lists in which an id occurs more than once (a position is not identified by its entry): every position's proof
+    for n in range(2, ctx.scale(10, 16)):
+        for rep in range(ctx.scale(3, 8)):
+            l = [gens.rb(rng, 32) for _ in range(n)]
+            for _ in range(rng.randrange(1, 1 + max(1, n // 2))):
+                l[rng.randrange(0, n)] = l[rng.randrange(0, n)]
+            if rep == 0:
+                l[-1] = l[0]
+            same = list(l)
+            root = get_merkle_root(same)
+            ops.append("mroot " + " ".join(x.hex() for x in l))
+            impl.append(root.hex())
+            tree = get_merkle_tree(same)
+            for i in range(n):
+                p = get_proof(tree, i)
+                lv = leaves_of(p)
+                ops.append("mproof %d " % i + " ".join(x.hex() for x in l))
+                impl.append(p.hash().hex() + " " + ",".join("%d:%s" % (ix, v.hex()) for ix, v in lv))
+                res.case(("proof-repeated", tuple(l), i), nontrivial=True)
+                res.count("proofs_in_lists_with_repeated_ids")
+                if p.hash() != root:
+                    res.violations.append({"kind": "inclusion proof does not reproduce the commitment (list with a repeated id)",
+                                           "n": n, "i": i, "list": [x.hex() for x in l]})
+                if (i, l[i]) not in lv:
+                    res.violations.append({"kind": "inclusion proof does not contain the entry at its position (list with a repeated id)",
+                                           "n": n, "i": i, "list": [x.hex() for x in l],
+                                           "leaves": ["%d:%s" % (ix, v.hex()[:8]) for ix, v in lv]})
     # structural edits
     seen_roots = {}
     for n in range(1, ctx.scale(7, 9) + 1):
